@@ -24,6 +24,35 @@ def run(tier, seed):
             pass
     for p in progs[:3]:
         rep.samples.append({"program": p.key(), "definition": p.text.split("\n")[-1]})
+    # generator helpers: _optimize_struct_fmt is a run-length encoder over (count, char) entries producing a format string
+    # (string building with counts: bounded exhaustive)
+    import itertools
+    import struct as _struct
+
+    from dissect.cstruct.compiler import _optimize_struct_fmt
+    from runtime.bounded import Bounded
+
+    b = Bounded("_optimize_struct_fmt", "all entry lists of length <= 4 over counts {0,1,2,3,12} x chars {x,B,H,I}: the optimised format unpacks every buffer exactly like the naive expansion")
+    entries = [(c, ch) for c in (0, 1, 2, 3, 12) for ch in "xBHI"]
+    maxlen = 3 if tier == "quick" else 4
+    for n in range(0, maxlen + 1):
+        for combo in itertools.product(entries, repeat=n):
+            info = [(None, c, ch) for c, ch in combo]
+            naive = "".join(ch * c for c, ch in combo)
+            try:
+                fmt = _optimize_struct_fmt(iter(info))
+                if not naive:
+                    ok = fmt == ""
+                    obs = f"{fmt!r} for an empty expansion"
+                else:
+                    size = _struct.calcsize("<" + naive)
+                    buf = bytes((i * 7 + 1) % 256 for i in range(size))
+                    ok = _struct.calcsize("<" + fmt) == size and _struct.unpack("<" + fmt, buf) == _struct.unpack("<" + naive, buf)
+                    obs = f"optimised {fmt!r} vs naive {naive!r}"
+            except Exception as e:  # noqa: BLE001
+                ok, obs = False, f"raises {type(e).__name__}: {e}"
+            b.case(combo, ok, observed=obs, inputs={"info": [list(x) for x in combo]})
+    b.add_to(rep)
     rep.extra["rule"] = (
         "programs = family F (t2/sets.py): every kind alone, every ordered pair of the quick alphabet (heavy kinds only with "
         "cheap partners), seeded longer sequences; x endian {<,>} x {packed, aligned}; distinct = distinct layout signature "
